@@ -87,7 +87,30 @@ class HResult:
         return [c for c in self.checks if c[1] not in ("SUCCESS", "FAILURE", "SATISFIED", "UNREACHABLE", "UNSATISFIABLE")]
 
 
-PLAY_RE = re.compile(r'/// Check for `(\w+)`: "(.*)"\n#\[test\]\nfn \w+\(\) \{\n\s+let concrete_vals: Vec<Vec<u8>> = vec!\[\n(.*?)\n\s+\];', re.S)
+def parse_playback(body):
+    """[(check description, [byte vectors in kani::any() order])] from --concrete-playback=print output"""
+    out = []
+    desc = None
+    vals = None
+    for line in body.splitlines():
+        m = re.match(r'^/// Check for `\w+`: "(.*)"\s*$', line)
+        if m:
+            desc = m.group(1)
+            if desc.startswith('"') and desc.endswith('"'):
+                desc = desc[1:-1]
+            vals = None
+            continue
+        if desc is not None and "let concrete_vals" in line:
+            vals = []
+            continue
+        if vals is not None:
+            m = re.match(r'^\s*vec!\[([\d, ]*)\],?\s*$', line)
+            if m:
+                vals.append([int(x) for x in m.group(1).split(",") if x.strip()])
+            elif re.match(r'^\s*\];', line):
+                out.append((desc, vals))
+                desc, vals = None, None
+    return out
 
 
 def parse_output(text):
@@ -108,14 +131,7 @@ def parse_output(text):
         m = re.search(r'^Verification Time: ([\d.]+)s', body, re.M)
         r.time = float(m.group(1)) if m else None
         r.raw_tail = body[-1500:]
-        for pm in PLAY_RE.finditer(body):
-            vals = []
-            for vm in re.finditer(r'vec!\[([\d, ]*)\]', pm.group(3)):
-                vals.append([int(x) for x in vm.group(1).split(",") if x.strip()])
-            d = pm.group(2)
-            if d.startswith('"') and d.endswith('"'):
-                d = d[1:-1]
-            r.playback.append((d, vals))
+        r.playback = parse_playback(body)
         res[name] = r
     return res
 
@@ -142,13 +158,14 @@ def run_partition(idx, names, extra, log):
 
 
 def weight(h):
+    """relative cost (measured): single-instruction harness ~ 8 s, composite / label ~ 40-130 s"""
     n = h["name"]
-    if "mem" in n or "mov_imm" in n:
-        return 6
-    if "_imm" in n and any(k in n for k in ("and_", "orr_", "eor_", "ands_", "tst_")):
-        return 6
-    if n.startswith(("fwd__", "bwd__")):
+    if "_mem_" in n:
+        return 14
+    if "mov_imm" in n or n.startswith(("fwd__", "bwd__", "far__")):
         return 8
+    if h["kind"] == "any":
+        return 2
     return 1
 
 
@@ -360,8 +377,11 @@ def main(tier):
                 if pr is None or not pr.playback:
                     inconclusive.append((h["name"], "no counterexample values could be extracted"))
                     continue
-                wanted = [p for p in pr.playback if "POST" in p[0]] if h["kind"] in ANY_STYLE else \
-                    [p for p in pr.playback if "VACUITY" not in p[0]]
+                # the CEX cover witness first, then the failing post-assertion, then (harnesses in which
+                # no panic is allowed) any other failing check
+                wanted = [p for p in pr.playback if "CEX" in p[0]] + [p for p in pr.playback if "POST" in p[0]]
+                if h["kind"] not in ANY_STYLE:
+                    wanted += [p for p in pr.playback if "VACUITY" not in p[0] and "CEX" not in p[0] and "POST" not in p[0]]
                 reproduced = False
                 seen = set()
                 for desc, vals in wanted:
